@@ -53,6 +53,10 @@ func (g *Gen) genFrozen(n int) error {
 			g.wideSchemaCase(true)
 			continue
 		}
+		if i%29 == 5 && g.dumpfiles {
+			g.oneHitRemergeCase()
+			continue
+		}
 		m := chunkModes[i%len(chunkModes)]
 		g.curMode = m
 		g.emit("cfg chunkmode=%d", m)
@@ -1158,4 +1162,69 @@ func docVecCount(b *BatchSpec, d int, fn string) int {
 		}
 	}
 	return n
+}
+
+// oneHitRemergeCase: a merge result holding single-hit dictionary entries (one live document,
+// frequency 1, no locations) is merged a second time with an input that has the same terms and
+// the same field list (byte-copying path: the single hit is expanded into ordinary postings
+// bytes), then a third time with deletions on both sides.  Every file is dumped.
+func (g *Gen) oneHitRemergeCase() {
+	m := []int{1026, 1025, 1024, 2}[g.stats["onehit.remerge"]%4]
+	g.curMode = m
+	g.emit("cfg chunkmode=%d", m)
+	mk := func(docs [][]TokSpec, lens []int) string {
+		b := &BatchSpec{Name: g.fresh("b")}
+		for d, toks := range docs {
+			id := []byte(fmt.Sprintf("%s-%d", b.Name, d))
+			doc := DocSpec{ID: id, Plain: true}
+			doc.Fields = append(doc.Fields, FieldSpec{Kind: "fld", Name: "_id", Typ: 't', Stored: true, Len: 1, Val: id, Toks: []TokSpec{{Term: id, Freq: 1}}})
+			doc.Fields = append(doc.Fields, FieldSpec{Kind: "fld", Name: "tag", Typ: 't', Len: lens[d], DV: d%2 == 0, Toks: toks})
+			b.Docs = append(b.Docs, doc)
+		}
+		g.emitBatch(b)
+		s := g.fresh("s")
+		g.emit("build %s %s", s, b.Name)
+		g.newBuilt(s, b)
+		return s
+	}
+	t := func(term string, f int) TokSpec { return TokSpec{Term: []byte(term), Freq: f} }
+	a := mk([][]TokSpec{{t("x", 1), t("p", 1), t("q", 1)}, {t("y", 2)}}, []int{3, 2})
+	bs := mk([][]TokSpec{{t("z", 1)}}, []int{1})
+	c := mk([][]TokSpec{{t("x", 3), t("r", 4)}, {t("x", 1)}, {t("z", 1), t("p", 1)}}, []int{7, 1, 2})
+	dump := func(seg string, n int) {
+		for _, term := range []string{"x", "y", "z", "p", "q", "r"} {
+			g.emit("q post %s tag %s ex=nil fl=111 ops=%s", seg, hx([]byte(term)), g.nexts(n+1))
+			g.emit("q post %s tag %s ex=nil fl=000 ops=A1,N,N", seg, hx([]byte(term)))
+		}
+		g.emit("q dict %s tag aut=all lo=* hi=* probe=.", seg)
+		g.emit("q dict %s _id aut=all lo=* hi=* probe=.", seg)
+	}
+	f1 := g.fresh("f")
+	g.emit("merge %s segs=%s,%s drops=nil|nil", f1, a, bs)
+	g.emit("dumpfile %s", f1)
+	m1 := g.fresh("m")
+	g.emit("open %s %s", m1, f1)
+	dump(m1, 3)
+	for _, order := range [][]string{{m1, c}, {c, m1}} {
+		f2 := g.fresh("f")
+		g.emit("merge %s segs=%s drops=nil|nil", f2, strList(order))
+		g.emit("dumpfile %s", f2)
+		m2 := g.fresh("m")
+		g.emit("open %s %s", m2, f2)
+		dump(m2, 6)
+		// once more, with a deletion: single hits appear and disappear again
+		f3 := g.fresh("f")
+		g.emit("merge %s segs=%s,%s drops=1|0", f3, m2, m1)
+		g.emit("dumpfile %s", f3)
+		m3 := g.fresh("m")
+		g.emit("open %s %s", m3, f3)
+		dump(m3, 7)
+		g.emit("close %s", m3)
+		g.emit("close %s", m2)
+	}
+	g.emit("close %s", m1)
+	for _, s := range []string{a, bs, c} {
+		g.emit("close %s", s)
+	}
+	g.st("onehit.remerge")
 }
